@@ -229,7 +229,7 @@ def rule_site_templates(ctx: Ctx, rule: str) -> None:
             check_text(ctx, rule, key, repo.loc('_wcparse', call), v, inst(ref, SEP[var]),
                        [(t, inst(a, SEP[var])) for t, a in alts], witness)
             n += 1
-    ctx.floor(rule, 'template instantiation sites x variants', n, 8)
+    ctx.floor(rule, 'template instantiation sites x variants', n, 6)
     # self.sep + _ONE_OR_MORE
     m = 0
     for fi in repo.cls('_wcparse', 'WcParse').methods.values():
